@@ -94,6 +94,11 @@ func shuffled(r *lib.Rand, l []*big.Int) []*big.Int {
 func gen(tier string, r *lib.Rand, emit func(string)) {
 	all := configs()
 	put := func(c config, ts []*big.Int) {
+		if hangs >= maxHangs {
+			// every hung call keeps a goroutine spinning; the hangs already reported are
+			// violations with their inputs, so stop generating instead of crawling on
+			return
+		}
 		emit("findsequence " + c.alg.String() + " " + lib.HexList(ts))
 	}
 	// (c) degenerate: empty list, {1}, repeats of 1 and 2
@@ -293,6 +298,11 @@ func classify(v interface{}) string {
 	return "other"
 }
 
+// hangs counts watchdog expiries; generation stops after maxHangs of them.
+var hangs int
+
+const maxHangs = 6
+
 var watchdog = func() time.Duration {
 	if s := os.Getenv("C08_WATCHDOG"); s != "" {
 		if d, err := time.ParseDuration(s); err == nil {
@@ -327,6 +337,7 @@ func call(a alg.SequenceAlgorithm, targets []*big.Int) string {
 	case res := <-done:
 		return res
 	case <-time.After(watchdog):
+		hangs++
 		return "hang"
 	}
 }
@@ -360,32 +371,33 @@ func validChain(c []*big.Int) string {
 	if c[0].Cmp(big.NewInt(1)) != 0 {
 		return "chain does not start with 1"
 	}
-	seen := map[string]bool{}
+	// position of every value (values are distinct, checked below)
+	pos := map[string]int{}
 	for k, x := range c {
 		if x.Sign() <= 0 {
 			return fmt.Sprintf("non-positive element at %d", k)
 		}
-		if seen[x.String()] {
+		key := string(x.Bytes())
+		if _, dup := pos[key]; dup {
 			return fmt.Sprintf("element %s repeated", x)
 		}
-		seen[x.String()] = true
-		if k == 0 {
-			continue
-		}
+		pos[key] = k
+	}
+	s := new(big.Int)
+	for k := 1; k < len(c); k++ {
 		found := false
-		s := new(big.Int)
-		for i := 0; i < k && !found; i++ {
-			// c[k] - c[i] must be an earlier element at position >= i
-			s.Sub(x, c[i])
-			for j := i; j < k; j++ {
-				if c[j].Cmp(s) == 0 {
-					found = true
-					break
-				}
+		// c[k] = c[i] + c[j] with i, j < k: try the most recent elements first
+		for i := k - 1; i >= 0 && !found; i-- {
+			s.Sub(c[k], c[i])
+			if s.Sign() <= 0 {
+				continue
+			}
+			if j, ok := pos[string(s.Bytes())]; ok && j < k {
+				found = true
 			}
 		}
 		if !found {
-			return fmt.Sprintf("element %d (%s) is not a sum of two earlier elements", k, x)
+			return fmt.Sprintf("element %d (%s) is not a sum of two earlier elements", k, c[k])
 		}
 	}
 	return ""
@@ -418,6 +430,9 @@ func oracle(c, res string) string {
 	if !inDomain(ts) {
 		// outside the property's quantifier: only the model comparison applies
 		return ""
+	}
+	if res == "hang" {
+		return "no answer within the watchdog time"
 	}
 	// independent second run on a fresh deep copy: the values of the caller's integers must be
 	// unchanged (the slice may be re-ordered)
